@@ -54,7 +54,7 @@ def single_cases():
         out.append((q, ('none',)))
     # notifications
     n = {'method': 'm', 'params': None, 'id': None}
-    for b in (('none',), ('empty',), ('json', resp(None)), ('json', []), ('garbage', 'x')):
+    for b in (('none',), ('empty',), ('json', resp(None)), ('json', []), ('garbage', 'x'), ('garbage', '\n'), ('garbage', ' \t '), ('garbage', '\r\n')):
         out.append((n, b))
     return out
 
@@ -98,7 +98,7 @@ def batch_cases(maxn):
               out.append((qset, ('none',)))
     # all-notification batch and duplicate request ids
     nn = [{'method': 'a', 'params': None, 'id': None}, {'method': 'b', 'params': {'k': 1}, 'id': None}]
-    for b in (('none',), ('empty',), ('json', []), ('json', [resp(1)])):
+    for b in (('none',), ('empty',), ('json', []), ('json', [resp(1)]), ('garbage', '\n'), ('garbage', '  ')):
         out.append((nn, b))
     out.append(([{'method': 'a', 'params': None, 'id': 1}, {'method': 'b', 'params': None, 'id': 1}], ('json', [resp(1)])))
     return out
